@@ -213,14 +213,21 @@ def run_multicube(tier, seed):
     # ---- single-column filter cube: the server lists only the row values that occur among
     # ---- the filtered respondents; the library restores the rows of the summary cube (zero
     # ---- counts) so that the k-th row of both cubes is the same element
+    # ---- (the library REBUILDS the filter cube: population, minimum base and transforms of
+    # ---- that member must survive -- hide + prune configuration, population estimates)
+    fc_cfgs = [configs.DEFAULT,
+               configs.config(rows=configs.dimcfg(hide=[1], prune=True)),
+               configs.config(rows=configs.dimcfg(hide=[2]))]
     sF, rF, st, err = records_for(
         scenario("fc_text", [cat("A", 5, miss=[5], subtype="text", ids=[0, 1, 2, 3, -1])],
-                 weighted=False, weights=[1], min_base=5), "c06", seed + 9, 2 * nrec, min_resp=1)
+                 weighted=False, weights=[1], min_base=5, population=1000, configs=fc_cfgs),
+        "c06f", seed + 9, 4 * nrec, min_resp=1)
     gen += st["generated"]
     if err:
         return problems, evals, gen, err
     for a, b in zip(rF[::2], rF[1::2]):
-        r0, r1 = resp(sF, a), resp(sF, b)
+        ca, cb = fc_cfgs[a.get("ci", 1) - 1], fc_cfgs[b.get("ci", 1) - 1]
+        r0, r1 = envelope.build_response(sF, a, ca), envelope.build_response(sF, b, cb)
         # the filter cube as the server sends it: rows without respondents are left out
         keep = [i for i, (el, n) in enumerate(zip(r1["result"]["dimensions"][0]["type"]["elements"],
                                                   r1["result"]["counts"]))
@@ -231,26 +238,30 @@ def run_multicube(tier, seed):
         for m in r1["result"]["measures"].values():
             m["data"] = [m["data"][i] for i in keep]
         r1["result"]["is_single_col_cube"] = True
-        cs = CubeSet([r0, r1], [{}, {}], None, sF["min_base"])
-        psets = cs.partition_sets
-        evals += 1
-        if len(psets) != 1 or len(psets[0]) != 2:
-            problems.append(("filter-column set: partition_sets has shape %s" %
-                             ([len(p) for p in psets],), {"case": "filtercol", "prop": "partition_sets"}))
-            continue
-        for part, rec, name in zip(psets[0], (a, b), ("summary", "filter column")):
-            for prop, e in rec["parts"][0].items():
-                if prop.endswith("_pos"):
-                    continue
-                evals += 1
-                try:
-                    obs = getattr(part, prop)
-                except Exception as ex:  # noqa
-                    problems.append(("filter-column set %s.%s raised %r" % (name, prop, ex),
-                                     {"case": "filtercol", "prop": prop, "raises": True}))
-                    continue
-                _cmp(problems, "filter-column set %s.%s" % (name, prop), obs, e,
-                     {"case": "filtercol", "prop": prop, "part": name})
+        xfa, xfb = configs.transforms_dict(ca), configs.transforms_dict(cb)
+        # second pass: a further CubeSet over the SAME response and transform objects
+        for reuse in (False, True):
+            cs = CubeSet([r0, r1], [xfa, xfb],
+                         sF["population"], sF["min_base"])
+            psets = cs.partition_sets
+            evals += 1
+            if len(psets) != 1 or len(psets[0]) != 2:
+                problems.append(("filter-column set: partition_sets has shape %s" %
+                                 ([len(p) for p in psets],), {"case": "filtercol", "prop": "partition_sets"}))
+                continue
+            for part, rec, name in zip(psets[0], (a, b), ("summary", "filter column")):
+                for prop, e in rec["parts"][0].items():
+                    if prop.endswith("_pos"):
+                        continue
+                    evals += 1
+                    try:
+                        obs = getattr(part, prop)
+                    except Exception as ex:  # noqa
+                        problems.append(("filter-column set %s.%s raised %r" % (name, prop, ex),
+                                         {"case": "filtercol", "prop": prop, "raises": True}))
+                        continue
+                    _cmp(problems, "filter-column set %s.%s" % (name, prop), obs, e,
+                         {"case": "filtercol", "prop": prop, "part": name, "reuse": reuse})
 
     # ---- numeric-measure rows: 0-D + 1-D cubes are padded with a one-row dimension
     y = dict(yvals=(0, 1, 3), ymeasures=("mean",), valid_counts=True)
